@@ -117,6 +117,10 @@ def _c20(prop, tier):
     with open(cp, "w") as f:
         for c in cases:
             f.write(_json.dumps(c) + "\n")
+    # unbounded parameters: the delay / first-success / deadline invariant of the retry loop is inductive for every Timeout, Max, Init2,
+    # attempt duration and failure count (Apalache: Init => IndInv, IndInv /\ Next => IndInv'), not only on TLC's grid
+    C.run_apalache("RetryInd", ["--cinit=ConstInit", "--init=Init", "--inv=IndInv", "--length=0"])
+    C.run_apalache("RetryInd", ["--cinit=ConstInit", "--init=IndInit", "--inv=IndInv", "--length=1"])
     C.log("[C20] model Retry: %d configurations, %d states generated, %d distinct; %d cases for the real getter" % (len(grid), gen, states, len(cases)))
     trace = _os.path.join(wd, "trace.ndjson")
     summ = C.run_harness(binary, "retry", cp, trace, _os.path.join(wd, "s.json"), tier)
@@ -165,7 +169,8 @@ def _c20(prop, tier):
     code = C.settle(prop, violations)
     cov = {"states": states, "transitions": gen, "traces_validated_against_impl": summ["runs"], "events_validated": summ["events"],
            "model_configurations": ["unit=%sms Timeout=%d Max=%d Init2=%d real=%s" % g for g in grid],
-           "slack_ms": RETRY_SLACK_MS, "counts": summ["counts"], "samples": summ["samples"][:4], "exhaustive": True,
+           "slack_ms": RETRY_SLACK_MS, "apalache_inductive_invariant": "RetryInd.IndInv holds initially and is preserved by every step for all parameter values (apalache-mc, lengths 0 and 1)",
+           "counts": summ["counts"], "samples": summ["samples"][:4], "exhaustive": True,
            "rule": "TLC exhausts Retry (safety + termination under fairness) for every grid point; each (timeout, max, failure count) case runs on the real RetryHTTPSGetter with a scripted getter; TLC validates the recorded attempt times"}
     C.write_evidence(prop, tier, "model_checking", cov, _time.time() - t0, len(violations),
                      ["the host's monotonic clock; upper timing bounds carry %d ms slack, lower bounds are strict" % RETRY_SLACK_MS,
